@@ -25,6 +25,15 @@ int main(int argc, char** argv)
               if (back != rows) { if (!bad) first = "field containing character " + std::to_string((int)sp) + " with delimiter " + std::to_string((int)delim) + ", line delimiter of length " + std::to_string(strlen(eol)) + " first byte " + std::to_string((int)eol[0]) + ": decoded " + back.to_string(); ++bad; } }
         catch (const std::exception& e) { if (!bad) first = std::string(e.what()) + " for character " + std::to_string((int)sp); ++bad; }
     }
+    // empty fields in every position, for every delimiter (a row that begins with an empty field begins with the delimiter itself: F36 for tab separated values)
+    for (char delim : {',', ';', '\t', '|', ' '}) for (auto style : {csv::quote_style_kind::minimal, csv::quote_style_kind::all, csv::quote_style_kind::nonnumeric}) for (int mask = 0; mask < 8; ++mask) {
+        json rows(json_array_arg); json row(json_array_arg); for (int c = 0; c < 3; ++c) row.push_back((mask >> c) & 1 ? std::string("v") + std::to_string(c) : std::string()); rows.push_back(row); json row2(json_array_arg); row2.push_back("p"); row2.push_back(""); row2.push_back("q"); rows.push_back(row2);
+        auto eopt = csv::csv_options{}.field_delimiter(delim).quote_style(style); auto dopt = csv::csv_options{}.field_delimiter(delim).assume_header(false).mapping_kind(csv::csv_mapping_kind::n_rows).infer_types(false);
+        ++total;
+        try { std::string text; csv::encode_csv(rows, text, eopt); json back = csv::decode_csv<json>(text, dopt);
+              if (back != rows) { if (!bad) first = "rows with empty fields (mask " + std::to_string(mask) + "), delimiter " + std::to_string((int)delim) + ": " + rows.to_string() + " comes back as " + back.to_string(); ++bad; } }
+        catch (const std::exception& e) { if (!bad) first = std::string(e.what()) + " for empty-field mask " + std::to_string(mask); ++bad; }
+    }
     if (bad) VX_REPRO(bad << " of " << total << " csv round trips differ, first: " << first);
     VX_NOREPRO("all " << total << " csv round trips are the identity");
 }
